@@ -1,5 +1,6 @@
 import SphericalVerif.Props.C09
 import SphericalVerif.Props.HKernel
+import SphericalVerif.Props.GenH
 #print axioms C09.objd_pure
 #print axioms C09.objD_pure
 #print axioms C09.objY_pure
@@ -10,3 +11,9 @@ import SphericalVerif.Props.HKernel
 #print axioms C09.history_indep_all
 #print axioms HKernel.runH_pure
 #print axioms HKernel.runH_size_indep
+#print axioms GenH.tables
+#print axioms GenH.genH_sim
+#print axioms GenH.genH_refines
+#print axioms GenH.genH_pure
+#print axioms GenH.genH_size_indep
+#print axioms GenH.tabOK_ranges
